@@ -1046,7 +1046,14 @@ def _dpop(ex, fn, args, kw, node):
         del c2.items[key]
         ex.setcell(p, c2)
         return r
-    ex.limit('dict.pop on symbolic map', node)
+    if len(args) >= 2:
+        r = ex.map_get(p, args[0], node, raise_missing=False)
+        if r is None:
+            return args[1]
+    else:
+        r = ex.map_get(p, args[0], node, raise_missing=True)
+    ex.map_del(p, args[0], node)
+    return r
 
 
 @builtin('dict.update')
